@@ -73,6 +73,7 @@ def runBody (s : Store) (done : Nat) : List Stmt → BodyResult
 inductive Kind
   | recording
   | setPointer
+  | failingPre      -- a plugin whose pre action reports a failure (`result.addFailure`), non-terminating
 deriving Repr, DecidableEq, Inhabited
 
 structure Plugin where
@@ -134,6 +135,25 @@ def getByName (name : String) : Chain → Option Plugin
   | [] => none
   | p :: rest => if name = p.name then some p else getByName name rest
 
+/-- result of `getPluginByName`: a plugin, the sentinel itself (it carries the name `nullName`), or NULL -/
+inductive Lookup
+  | plugin (p : Plugin)
+  | sentinel
+  | none
+deriving Repr, DecidableEq, Inhabited
+
+/-- `TestRegistry::getPluginByName` including the end of the chain: `NullTestPlugin` compares its own
+    name, then returns its `next_`, which is NULL -/
+def lookup (name : String) : Chain → Lookup
+  | [] => if name = Gen.Plugins.nullName then .sentinel else .none
+  | p :: rest => if name = p.name then .plugin p else lookup name rest
+
+/-- `TestRegistry::countPlugins`: plugins before the sentinel -/
+def countPlugins (c : Chain) : Nat := c.length
+
+/-- `TestRegistry::getFirstPlugin` (`none` = the sentinel) -/
+def firstPlugin (c : Chain) : Option Plugin := c.head?
+
 /-- `disable()` / `enable()` of a plugin object that is linked in the chain -/
 def setEnabled (id : Nat) (b : Bool) (c : Chain) : Chain :=
   c.map (fun p => if p.id = id then { p with enabled := b } else p)
@@ -148,13 +168,36 @@ structure TestResult where
   pre      : List String
   post     : List String
 
-/-- `runOneTestInCurrentProcess`: pre actions, body (any outcome), post actions -/
+/-- some enabled plugin reports a failure in its pre action -/
+def preFails (c : Chain) : Bool := c.any (fun p => p.enabled && p.kind == .failingPre)
+
+/-- `runOneTestInCurrentProcess`: pre actions, body (any outcome), post actions.  A failure reported
+    by a pre action (`result.addFailure`) marks the test as failed and changes nothing else: the body
+    and every post action still run. -/
 def runTest (c : Chain) (s : Store) (body : List Stmt) : TestResult :=
   { store := postStore c (runBody s 0 body).store,
-    failed := (runBody s 0 body).failed,
+    failed := (runBody s 0 body).failed || preFails c,
     overflow := (runBody s 0 body).overflow,
     done := (runBody s 0 body).done,
     pre := runAllPre c, post := runAllPost c }
+
+/-- how the shell runs a test (`UtestShell::runOneTest`, `IgnoredUtestShell::runOneTest`) -/
+inductive RunKind
+  | normal        -- in the current process
+  | separate      -- `setRunInSeperateProcess`: fork; the CHILD runs `runOneTestInCurrentProcess`
+  | ignored       -- `IgnoredUtestShell`, ignored tests not run: `result.countIgnored()` and nothing else
+  | ignoredRun    -- `IgnoredUtestShell` with `setRunIgnored()`: as a normal test
+deriving Repr, DecidableEq, Inhabited
+
+/-- what the calling process observes.  In separate-process mode pre actions, body and post actions
+    all happen in the child (a copy of the process): the parent's pointers and table are untouched,
+    it only learns the verdict through the exit status. -/
+def runTestKind (k : RunKind) (c : Chain) (s : Store) (body : List Stmt) : TestResult :=
+  match k with
+  | .normal => runTest c s body
+  | .ignoredRun => runTest c s body
+  | .separate => { runTest c s body with store := s }
+  | .ignored => { store := s, failed := false, overflow := false, done := 0, pre := [], post := [] }
 
 def runTests (c : Chain) (s : Store) : List (List Stmt) → Store
   | [] => s
